@@ -39,7 +39,10 @@ TRead == /\ Is("lread") /\ UNCHANGED <<maxv, held>>
 THeld == Is("lheld") /\ held' = held \cup {Ev.b} /\ UNCHANGED <<maxv, dev>>
 TRel  == Is("lrel")  /\ held' = held \ {Ev.b} /\ UNCHANGED <<maxv, dev>>
 TProbe == Is("lprobe") /\ UNCHANGED <<maxv, held, dev>> /\ Ev.completed = (Ev.rb \notin held)
-TNext == TReset \/ TMax \/ TRead \/ THeld \/ TRel \/ TProbe
+\* a writer died inside the latch (its user code panicked between two columns of its commit, the caller recovered): a reader
+\* either does not get in, or sees the row's only committed version
+TPanic == Is("lpanic") /\ UNCHANGED <<maxv, held, dev>> /\ (Ev.completed => (Ev.a = 0 /\ Ev.b = 0))
+TNext == TReset \/ TMax \/ TRead \/ THeld \/ TRel \/ TProbe \/ TPanic
 TSpec == TInit /\ [][TNext]_tvars
 Record == TLCSet(1, <<IF l > TLCGet(1)[1] THEN l ELSE TLCGet(1)[1], TLCGet(1)[2] \cup dev>>)
 ASSUME TLCSet(1, <<0, {}>>)
